@@ -64,9 +64,10 @@ impl C13 {
         let want_b = want != Loc::Outside;
         let rp = Polygon { points: poly.iter().map(|p| self.pt(*p)).collect() };
         let qq = self.pt(q);
-        let got = guard(|| {
+        // the same object (and the same vertex buffer) is asked twice, first directly and then moved into the enum
+        let got = guard(move || {
             let a = rp.contains(&qq);
-            let b = Shape::Polygon(rp.clone()).contains(&qq);
+            let b = Shape::Polygon(rp).contains(&qq);
             (a, b)
         });
         match got {
@@ -103,6 +104,59 @@ impl C13 {
                     Loc::Outside => tallies[2] += 1,
                 }
                 self.query_poly(poly, q, kind, cx);
+            }
+        }
+        self.object_sequence(poly, g, kind, cx);
+    }
+
+    /// One polygon object over its life: every grid point is asked of the same object, the object is then moved in
+    /// place by `shift` and asked again (the answers move with it), and finally its vertex list is overwritten in
+    /// place with the reversed list (the same point set) and asked a third time.  An answer may depend only on the
+    /// vertices the object has at the time of the call.
+    fn object_sequence(&self, poly: &[P], g: i64, kind: &str, cx: &mut Cx) {
+        const D: P = (7, -5);
+        let mut obj = Shape::Polygon(Polygon { points: poly.iter().map(|p| self.pt(*p)).collect() });
+        for stage in 0..3 {
+            let d = if stage == 0 { (0, 0) } else { D };
+            match stage {
+                1 => {
+                    if let Err(p) = guard(|| obj.shift(&pt0(D))) {
+                        cx.fail(&key_poly(kind, poly, 100, (0, 0)), "polygon-panic", None, || p.short(), || Value::Null);
+                        return;
+                    }
+                }
+                2 => {
+                    if let Shape::Polygon(pg) = &mut obj {
+                        pg.points.reverse();
+                    }
+                }
+                _ => {}
+            }
+            for x in -1..=g {
+                for y in -1..=g {
+                    let q = (x, y);
+                    cx.stats.evaluations += 1;
+                    let want = geom::locate_winding(q, poly) != Loc::Outside;
+                    let qq = self.pt((q.0 + d.0, q.1 + d.1));
+                    match guard(|| obj.contains(&qq)) {
+                        Err(p) => {
+                            cx.fail(&key_poly(kind, poly, 100 + stage, q), "polygon-panic", None, || p.short(), || Value::Null);
+                            return;
+                        }
+                        Ok(a) if a != want => {
+                            let sig = ["polygon-same-object", "polygon-after-shift", "polygon-after-edit-in-place"][stage as usize];
+                            cx.fail(
+                                &key_poly(kind, poly, 100 + stage, q),
+                                sig,
+                                None,
+                                || format!("one polygon object {poly:?}: stage {stage} (0 = as built, 1 = after shift by {D:?}, 2 = after reversing its vertex list in place): contains(point {q:?} moved likewise) = {a}, exact answer {want}"),
+                                || json!({"polygon": format!("{poly:?}"), "point": format!("{q:?}"), "stage": stage}),
+                            );
+                            return;
+                        }
+                        _ => {}
+                    }
+                }
             }
         }
     }
@@ -386,7 +440,7 @@ impl Driver for C13 {
         let (g, l) = tier.pick((4, 5), (5, 5));
         Describe {
             rule: format!(
-                "[every shape and query point is given to the real code translated by this part's offset: (0,0), (-3,-2) so that coordinates straddle zero, (-1000003,-70001)] rectangles: every ordered pair of corner points on a 5x5 grid x every point of the 7x7 grid; polygons: every sequence of 3..={l} distinct vertices on a {g}x{g} grid that is a simple polygon (all orientations, start vertices, collinear vertices){} and each of them again with one consecutive repeated vertex at every position, x every point of the (g+2)^2 grid; Manhattan paths: every sequence of 2..=4 points on a 5x5 grid with axis-parallel non-empty segments, and each of up to 3 points again with one point listed twice in a row at any position (a zero-length segment, which fixes no point to true), x width 0..=4 x every point of the 9x9 grid. A state is one shape (enumeration is duplicate-free by construction); a polygon is non-trivial when some non-boundary grid point has its rightward ray passing through a polygon vertex. Oracle: exact integer geometry (boundary by zero cross product, winding number with half-open rule, cross-checked against an independent crossing-number implementation at start-up).",
+                "[every shape and query point is given to the real code translated by this part's offset: (0,0), (-3,-2) so that coordinates straddle zero, (-1000003,-70001)] rectangles: every ordered pair of corner points on a 5x5 grid x every point of the 7x7 grid; polygons: every sequence of 3..={l} distinct vertices on a {g}x{g} grid that is a simple polygon (all orientations, start vertices, collinear vertices){} and each of them again with one consecutive repeated vertex at every position, x every point of the (g+2)^2 grid, each polygon asked per call on a fresh object and then as one object over its life (all points as built, all points again after `shift` in place by (7,-5), all points again after its vertex list is reversed in place); Manhattan paths: every sequence of 2..=4 points on a 5x5 grid with axis-parallel non-empty segments, and each of up to 3 points again with one point listed twice in a row at any position (a zero-length segment, which fixes no point to true), x width 0..=4 x every point of the 9x9 grid. A state is one shape (enumeration is duplicate-free by construction); a polygon is non-trivial when some non-boundary grid point has its rightward ray passing through a polygon vertex. Oracle: exact integer geometry (boundary by zero cross product, winding number with half-open rule, cross-checked against an independent crossing-number implementation at start-up).",
                 if tier.is_thorough() { ", plus every 6-vertex simple polygon on the 5x5 grid" } else { "" }
             ),
             assumptions: vec![
